@@ -205,6 +205,9 @@ class SimpleTypeChecker(walkers.DagWalker):
                                  % str(formula))
         elif args[0].is_bv_type():
             return self.walk_bv_to_bool(formula, args)
+        elif args[0].is_function_type():
+            # Function symbols are not terms
+            return None
         return self.walk_type_to_type(formula, args, args[0], BOOL)
 
     @walkers.handles(op.LE, op.LT)
@@ -217,6 +220,9 @@ class SimpleTypeChecker(walkers.DagWalker):
     def walk_ite(self, formula: FNode, args: List[PySMTType], **kwargs) -> Any:
         assert formula is not None
         if None in args: return None
+        if args[1].is_function_type():
+            # Function symbols are not terms
+            return None
         if (args[0] == BOOL and args[1]==args[2]):
             return args[1]
         return None
@@ -266,6 +272,10 @@ class SimpleTypeChecker(walkers.DagWalker):
         #pylint: disable=unused-argument
         assert formula is not None
         assert len(args) == 1
+        for v in formula.quantifier_vars():
+            # Only (non-function) symbols can be quantified
+            if not v.is_symbol() or v.symbol_type().is_function_type():
+                return None
         if args[0] == BOOL:
             return BOOL
         return None
@@ -327,6 +337,9 @@ class SimpleTypeChecker(walkers.DagWalker):
         if None in args: return None
 
         default_type = args[0]
+        if default_type.is_function_type():
+            # Function symbols are not terms
+            return None
         idx_type = formula.array_value_index_type()
         for i, c in enumerate(args[1:]):
             if i % 2 == 0 and c != idx_type:
